@@ -34,12 +34,13 @@ pub(super) fn captured_nodes(
     component_db: &ComponentDb,
     computation_db: &ComputationDb,
 ) -> HashMap<NodeIndex, IndexSet<NodeIndex>> {
-    let mut nodes_to_visit = VecDeque::from_iter(call_graph.externals(Direction::Incoming));
-    let mut visited_nodes = IndexSet::new();
+    // The capture relationship is transitive, so a node must be examined after all its
+    // dependencies: we walk the graph in topological order.
+    let nodes_to_visit = petgraph::algo::toposort(call_graph, None)
+        .expect("The call graph is not acyclic, but it should be at this stage");
     let mut node2captured_nodes: HashMap<NodeIndex, IndexSet<NodeIndex>> = HashMap::new();
 
-    while let Some(node_index) = nodes_to_visit.pop_front() {
-        visited_nodes.insert(node_index);
+    for node_index in nodes_to_visit {
         let node = &call_graph[node_index];
 
         let mut directly_borrowed = IndexSet::new();
@@ -122,16 +123,6 @@ pub(super) fn captured_nodes(
                     .entry(node_index)
                     .or_default()
                     .insert(dependency_index);
-            }
-        }
-
-        for edge_id in call_graph
-            .edges_directed(node_index, Direction::Outgoing)
-            .map(|edge_ref| edge_ref.id())
-        {
-            let dependent_index = call_graph.edge_endpoints(edge_id).unwrap().1;
-            if !visited_nodes.contains(&dependent_index) {
-                nodes_to_visit.push_back(dependent_index);
             }
         }
     }
